@@ -36,11 +36,26 @@ NodeInit(id, pol, codec, hrel, hpred, cfg) ==
      probe |-> ProbeInit, upd |-> <<>>, cus |-> <<>>,
      cfg |-> cfg, bufcap |-> cfg.maxpkt]
 
-EmptyTape == [sends |-> <<>>, order |-> <<>>, pind |-> <<>>]
+EmptyTape == [sends |-> <<>>, order |-> <<>>, pind |-> <<>>, auto |-> FALSE, pref |-> <<>>, hv |-> 0]
+
+(***************************************************************************)
+(* Model checking does not enumerate tapes.  With tape.auto the choices    *)
+(* are made by the specification itself, steered by tape.pref (a priority  *)
+(* order over identities chosen by the environment): members are chosen /  *)
+(* shuffled in pref order, feeds and fills are the canonical ones, and the *)
+(* BroadcastHandler answers tape.hv for every item.  Each of these is one  *)
+(* of the behaviours the validity predicates below allow.                  *)
+(***************************************************************************)
+Ranked(S, pref) ==
+    LET inPref == SelectSeq(pref, LAMBDA x : x \in S)
+        rest == S \ Range(pref)
+        RECURSIVE Enum(_)
+        Enum(T) == IF T = {} THEN <<>> ELSE LET x == CHOOSE y \in T : TRUE IN <<x>> \o Enum(T \ {x})
+    IN inPref \o Enum(rest)
 
 Ctx(st, tape, hl, dbg) ==
     [st |-> st, out |-> <<>>, sends |-> tape.sends, ti |-> 1, order |-> tape.order,
-     pind |-> tape.pind,
+     pind |-> tape.pind, auto |-> tape.auto, pref |-> tape.pref, hvAuto |-> tape.hv,
      ok |-> TRUE, err |-> "", panic |-> FALSE, r |-> FALSE, hv |-> 0,
      ins |-> <<>>, hl |-> hl, hi |-> 1, hcalls |-> <<>>, dbg |-> dbg]
 
@@ -52,7 +67,7 @@ Finish(c, okRes) ==
     [st |-> c.st,
      res |-> IF c.panic THEN "Panic" ELSE IF c.err = "" THEN okRes ELSE c.err,
      out |-> c.out,
-     ok |-> c.ok /\ (c.panic \/ (c.ti = Len(c.sends) + 1 /\ c.hi = Len(c.hl) + 1)),
+     ok |-> c.ok /\ (c.panic \/ c.auto \/ (c.ti = Len(c.sends) + 1 /\ c.hi = Len(c.hl) + 1)),
      ins |-> c.ins, hcalls |-> c.hcalls]
 
 -----------------------------------------------------------------------------
@@ -93,6 +108,23 @@ FeedOk(st, dst, rem, M) ==
        /\ (Len(M) < n => \E e \in elig \ Range(M) : MSize(st.codec, e) > rem - used
                                                      \/ ~Representable(st.codec, e.id))
 
+\* a canonical feed: eligible members in pref order, as many as fit (one legal behaviour)
+RECURSIVE TakeFitting(_, _, _, _)
+TakeFitting(codec, ms, space, n) ==
+    IF ms = <<>> \/ n = 0 THEN <<>>
+    ELSE IF MSize(codec, Head(ms)) <= space
+         THEN <<Head(ms)>> \o TakeFitting(codec, Tail(ms), space - MSize(codec, Head(ms)), n - 1)
+         ELSE <<>>
+
+CanonFeed(st, dst, rem, pref) ==
+    LET elig == {m \in ActiveRecs(st.mem) : m.id # dst}
+        idlen == (st.cfg.maxpkt - rem) \div 2
+        wanted == Max(IF idlen > 0 THEN rem \div idlen ELSE 0, 5)
+        n == Min(wanted, Cardinality(elig))
+        ids == Ranked({m.id : m \in elig}, pref)
+        ms == [i \in DOMAIN ids |-> CHOOSE m \in elig : m.id = ids[i]]
+    IN TakeFitting(st.codec, ms, rem, n)
+
 HeaderFits(st, dst, msg) ==
     LET h == Hdr(st.id, st.inc, dst, msg) IN
     /\ Representable(st.codec, st.id) /\ Representable(st.codec, dst)
@@ -109,12 +141,20 @@ SendMessage(c, dst, msg) ==
     IF c.dbg /\ st.bufcap # maxp THEN [c EXCEPT !.panic = TRUE]
     ELSE IF ~HeaderFits(st, dst, msg) THEN Fail(c, "Err:Encode")
     ELSE
-      LET have == c.ti <= Len(c.sends)
-          t == IF have THEN c.sends[c.ti] ELSE [dst |-> dst, mem |-> <<>>, items |-> <<>>]
+      LET have == c.auto \/ c.ti <= Len(c.sends)
           rem0 == maxp - hs
           piggy == NeedsPiggyback(msg.k) /\ rem0 > 2
           rem1 == IF piggy THEN rem0 - 2 ELSE rem0
           isFeed == msg.k = "Feed"
+          autoMem == IF ~piggy THEN <<>>
+                     ELSE IF isFeed THEN CanonFeed(st, dst, rem1, c.pref)
+                     ELSE LET f == CanonFill(st.upd, rem1, 0) IN [i \in DOMAIN f |-> f[i].m]
+          autoUsedM == SumSeq([i \in DOMAIN autoMem |-> MSize(st.codec, autoMem[i])])
+          autoItems == IF (rem1 - autoUsedM) > 0 /\ AllowCustom(msg.k) /\ PredHolds(st.hpred, dst)
+                       THEN LET f == CanonFill(st.cus, rem1 - autoUsedM, 2) IN [i \in DOMAIN f |-> ItemOf(f[i])]
+                       ELSE <<>>
+          t == IF c.auto THEN [dst |-> dst, mem |-> autoMem, items |-> autoItems]
+               ELSE IF have THEN c.sends[c.ti] ELSE [dst |-> dst, mem |-> <<>>, items |-> <<>>]
           memSeq == t.mem
           updInc == IF piggy /\ ~isFeed
                     THEN [i \in DOMAIN memSeq |-> UpdEntryOf(st.upd, st.codec, memSeq[i])]
@@ -156,9 +196,10 @@ ChooseAndSend(c, k, msg, elig) ==
     IF ~Live(c) THEN c ELSE
     IF Min(k, Cardinality(elig)) > 0 /\ WouldPanic(c) THEN [c EXCEPT !.panic = TRUE] ELSE
     LET n == Min(k, Cardinality(elig))
-        avail == Len(c.sends) - c.ti + 1
+        avail == IF c.auto THEN n ELSE Len(c.sends) - c.ti + 1
         m == Min(n, Max(avail, 0))
-        dsts == [i \in 1..m |-> c.sends[c.ti + i - 1].dst]
+        dsts == IF c.auto THEN SubSeq(Ranked(elig, c.pref), 1, n)
+                ELSE [i \in 1..m |-> c.sends[c.ti + i - 1].dst]
         valid == IsDistinct(dsts) /\ Range(dsts) \subseteq elig
         c1 == SendEach([c EXCEPT !.ok = @ /\ valid], dsts, msg)
     IN IF m = n \/ ~Live(c1) THEN c1
@@ -282,8 +323,9 @@ CusEntry(it, maxtx) == [key |-> it.key, ver |-> it.ver, sz |-> it.sz, intact |->
 
 \* one call into the BroadcastHandler: verdict read from the log (hv)
 HandlerCall(c, item, from) ==
-    LET have == c.hi <= Len(c.hl)
-        e == IF have THEN c.hl[c.hi] ELSE [item |-> item, from |-> from, v |-> 0]
+    LET have == c.auto \/ c.hi <= Len(c.hl)
+        e == IF c.auto THEN [item |-> item, from |-> from, v |-> c.hvAuto]
+             ELSE IF have THEN c.hl[c.hi] ELSE [item |-> item, from |-> from, v |-> 0]
     IN [c EXCEPT !.hi = @ + 1, !.hv = e.v,
                  !.ok = @ /\ have /\ e.item = item /\ e.from = from,
                  !.hcalls = Append(@, [item |-> item, from |-> from])]
@@ -331,8 +373,9 @@ ProbeRandomMember(c) ==
                               THEN Emit(c11, EffTimer(TmSuspect(f.id, f.inc, st.tok), st.cfg.s2d))
                               ELSE c11
         \* Members::next
-        permOk == IsPermutation(c.order, IdsOf(c2.st.mem))
-        shuffled == IF permOk THEN Reorder(c2.st.mem, c.order) ELSE c2.st.mem
+        order == IF c.auto THEN Ranked(Range(IdsOf(c2.st.mem)), c.pref) ELSE c.order
+        permOk == IsPermutation(order, IdsOf(c2.st.mem))
+        shuffled == IF permOk THEN Reorder(c2.st.mem, order) ELSE c2.st.mem
         nx == NextMember(c2.st.mem, c2.st.cursor, shuffled)
         needShuffle == c2.st.cursor < 0 \/ c2.st.cursor >= Len(c2.st.mem)
         c3 == [c2 EXCEPT !.st.mem = nx.mem, !.st.cursor = nx.cursor,
@@ -365,9 +408,10 @@ SendIndirectProbe(c, probed) ==
        ELSE IF ~IdIsActive(st.mem, probed) THEN c1
        ELSE LET elig == {i \in ActiveIds(st.mem) : i # probed}
                 n == Min(st.cfg.fanout, Cardinality(elig))
-                avail == Len(c.sends) - c.ti + 1
+                avail == IF c.auto THEN n ELSE Len(c.sends) - c.ti + 1
                 m == Min(n, Max(avail, 0))
-                dsts == [i \in 1..m |-> c.sends[c.ti + i - 1].dst]
+                dsts == IF c.auto THEN SubSeq(Ranked(elig, c.pref), 1, n)
+                        ELSE [i \in 1..m |-> c.sends[c.ti + i - 1].dst]
                 valid == IsDistinct(dsts) /\ Range(dsts) \subseteq elig
                 c2 == IndirectEach([c1 EXCEPT !.ok = @ /\ valid], dsts, probed)
             IN IF n > 0 /\ WouldPanic(c1) THEN [c1 EXCEPT !.panic = TRUE]
@@ -405,15 +449,16 @@ AnnounceToDown(c, k) ==
         own == {i \in down : Addr(i) = Addr(c.st.id)}
         others == down \ own
         n == Min(k, Cardinality(down))
-        avail == Max(Len(c.sends) - c.ti + 1, 0)
-        m == Min(avail, Min(n, Cardinality(others)))
-        dsts == [i \in 1..m |-> c.sends[c.ti + i - 1].dst]
+        avail == IF c.auto THEN n ELSE Max(Len(c.sends) - c.ti + 1, 0)
+        chosenAuto == SelectSeq(SubSeq(Ranked(down, c.pref), 1, n), LAMBDA i : i \in others)
+        m == IF c.auto THEN Len(chosenAuto) ELSE Min(avail, Min(n, Cardinality(others)))
+        dsts == IF c.auto THEN chosenAuto ELSE [i \in 1..m |-> c.sends[c.ti + i - 1].dst]
         valid == IsDistinct(dsts) /\ Range(dsts) \subseteq others
         msg == Msg("Announce", 0, NoId)
     IN IF m > 0 /\ WouldPanic(c) THEN [c EXCEPT !.panic = TRUE]
        ELSE LET c1 == SendEach([c EXCEPT !.ok = @ /\ valid], dsts, msg) IN
             IF ~Live(c1) THEN c1
-            ELSE IF m >= n - Cardinality(own) THEN c1
+            ELSE IF c.auto \/ m >= n - Cardinality(own) THEN c1
             ELSE IF \E e \in others \ Range(dsts) : ~HeaderFits(c1.st, e, msg) THEN Fail(c1, "Err:Encode")
             ELSE [c1 EXCEPT !.ok = FALSE]
 
@@ -525,11 +570,11 @@ DoGossip(st, tape, hl, dbg) == Finish(Gossip(Ctx(st, tape, hl, dbg)), "Ok")
 RECURSIVE BroadcastEach(_, _, _, _)
 BroadcastEach(c, n, used, elig) ==
     IF n = 0 \/ ~Live(c) THEN c
-    ELSE IF c.ti > Len(c.sends)
+    ELSE IF ~c.auto /\ c.ti > Len(c.sends)
          THEN \* nothing more was sent although a member had been chosen
               IF \E e \in elig \ used : ~HeaderFits(c.st, e, Msg("Broadcast", 0, NoId))
               THEN Fail(c, "Err:Encode") ELSE [c EXCEPT !.ok = FALSE]
-    ELSE LET dst == c.sends[c.ti].dst
+    ELSE LET dst == IF c.auto THEN Ranked(elig \ used, c.pref)[1] ELSE c.sends[c.ti].dst
              c1 == SendMessage([c EXCEPT !.ok = @ /\ dst \in elig /\ dst \notin used],
                                dst, Msg("Broadcast", 0, NoId))
          IN IF ~Live(c1) \/ c1.st.cus = <<>> THEN c1
